@@ -76,6 +76,9 @@ def relevance(ctx, rr):
         ys = [e for e in r.events if e.kind == 'yield']
         ps = pushes(r)
         dirs = [d for d, f, e in ps]
+        if r.outcome in ('break', 'return'):
+            bad.append((r, None, 'a step ends the whole walk (`%s`) while blocks are still waiting on the stack: the pending siblings and their subtrees are never visited' % r.outcome))
+            continue
         if S is None:
             bad.append((r, None, 'a step does not test whether it is at the starting node'))
             continue
